@@ -37,7 +37,7 @@ pub static BMT: EngineDef = EngineDef {
     shrink: shrink_erased::<bmt::Bmt>,
     summarize: summarize_erased::<bmt::Bmt>,
     describe: bmt_describe,
-    runs: |_| (60_000, 1_500_000),
+    runs: |_| (150_000, 4_000_000),
 };
 
 fn smt_describe(prop: &str) -> EngineDescription {
@@ -86,8 +86,8 @@ pub static SMT: EngineDef = EngineDef {
     summarize: summarize_erased::<smt::Smt>,
     describe: smt_describe,
     runs: |p| match p {
-        "C12" => (60_000, 1_500_000),
-        "C13" => (20_000, 400_000),
-        _ => (60_000, 1_500_000),
+        "C12" => (200_000, 5_000_000),
+        "C13" => (60_000, 1_500_000),
+        _ => (150_000, 4_000_000),
     },
 };
